@@ -149,8 +149,10 @@ enum A {
     TrySendOptNone,
     /// clone one handle 70 times, observe, drop 69 of the clones (count thresholds)
     CloneBurst,
+    /// many try_sends in a row (long queues: growth / wrap-around / batch limits), then observe
+    SendBurst,
 }
-const ALPHA: [(A, u32); 28] = [
+const ALPHA: [(A, u32); 29] = [
     (A::Send, 5),
     (A::SendTimeout0, 3),
     (A::SendOptTimeout0, 3),
@@ -179,6 +181,7 @@ const ALPHA: [(A, u32); 28] = [
     (A::Observe, 5),
     (A::TrySendOptNone, 1),
     (A::CloneBurst, 1),
+    (A::SendBurst, 1),
 ];
 fn pick_a(b: u8) -> A {
     pick_a_masked(b, 0)
@@ -1031,11 +1034,50 @@ impl<const N: usize> World<N> {
                     self.flags.insert("cross_clone");
                 }
             }
+            A::SendBurst => {
+                let Some(hi) = self.pick(Some(true), b1) else { return };
+                let n = if b2 % 8 == 7 { 1100 } else { 40 };
+                self.trace.push(format!("SendBurst(h{},{})", hi, n));
+                for _ in 0..n {
+                    let (id, v) = self.newval();
+                    let exp = self.m.send(id);
+                    self.apply_woken();
+                    let h = self.hs[hi].as_ref().unwrap();
+                    let r = match h {
+                        H::S(s) => s.try_send(v),
+                        H::AS(s) => s.try_send(v),
+                        _ => unreachable!(),
+                    };
+                    let (got, expd) = (
+                        match r {
+                            Ok(true) => 0,
+                            Ok(false) => 1,
+                            Err(_) => 2,
+                        },
+                        match exp {
+                            SendOut::Ok => 0,
+                            SendOut::Full => 1,
+                            SendOut::Err(_) => 2,
+                        },
+                    );
+                    if expd != 0 {
+                        self.exp_dropped.insert(id);
+                    }
+                    if got != expd {
+                        self.fail("result_mismatch", format!("try_send #{} of a burst: kanal {:?}, model {:?}", id, r, exp));
+                        return;
+                    }
+                }
+                self.observe(hi);
+                self.flags.insert("send_burst");
+            }
             A::CloneBurst => {
                 let Some(hi) = self.pick(None, b1) else { return };
                 self.trace.push(format!("CloneBurst(h{})", hi));
                 let mut burst: Vec<H<P<N>>> = Vec::new();
-                for j in 0..70 {
+                // usually 70 clones; rarely enough to cross a 16-bit counter
+                let n_clones = if b2 == 255 { 66_000 } else { 70 };
+                for j in 0..n_clones {
                     let h = self.hs[hi].as_ref().unwrap();
                     let cross = (j + b2 as usize) % 3 == 0;
                     let n = match (h, cross) {
@@ -1266,7 +1308,7 @@ fn run_world<const N: usize>(case: &SCase, caps: &[Option<usize>]) -> (World<N>,
         viol: Vec::new(),
         live_handles: 2,
         in_queue_at_end: false,
-        mask: u32::from_le_bytes([case.cfg[3], case.cfg[4], case.cfg[5], case.cfg[6]]) & ((1 << 28) - 1),
+        mask: u32::from_le_bytes([case.cfg[3], case.cfg[4], case.cfg[5], case.cfg[6]]) & ((1 << 29) - 1),
     };
     let mut panicked = false;
     for op in case.ops.iter() {
@@ -1408,7 +1450,7 @@ pub fn run_case(prop: &str, case: &SCase, tier_caps: &[Option<usize>]) -> CaseOu
         "payload_bytes": if large { 24 } else if size_class == 1 { 8 } else { 4 },
         "history": trace,
         "flags": flags.iter().collect::<Vec<_>>(),
-        "swarm_mask": format!("{:07x}", u32::from_le_bytes([case.cfg[3], case.cfg[4], case.cfg[5], case.cfg[6]]) & ((1 << 28) - 1)),
+        "swarm_mask": format!("{:07x}", u32::from_le_bytes([case.cfg[3], case.cfg[4], case.cfg[5], case.cfg[6]]) & ((1 << 29) - 1)),
     });
     co
 }
@@ -1460,7 +1502,7 @@ impl Engine for SeqEng {
 
 pub fn rule_text(prop: &str) -> &'static str {
     match prop {
-        "C18" => "single-thread histories over the full API alphabet (28 call kinds incl. futures, stream, conversions, zero-duration timed calls, observers) executed in lock-step against the reference model on the unhooked crate; random histories up to 60-80 calls; non-trivial = a future/stream registered in the waiting list and then a cancel, close or disconnect happened; distinct = hash(capacity, constructor, payload size, executed call sequence)",
+        "C18" => "single-thread histories over the full API alphabet (29 call kinds incl. futures, stream, conversions, zero-duration timed calls, observers) executed in lock-step against the reference model on the unhooked crate; random histories up to 60-80 calls; non-trivial = a future/stream registered in the waiting list and then a cancel, close or disconnect happened; distinct = hash(capacity, constructor, payload size, executed call sequence)",
         "C16" => "single-thread poll scripts: every poll's result, every waker's wake count and every value checked against the model; non-trivial = history contains a spurious poll of a registered future, a waker change, or a second wait on one stream; distinct = hash(config, executed call sequence)",
         "C12" => "single-thread clone/convert/drop/close histories with observers compared to the model's handle counts after every call; non-trivial = a cross-flavour clone or conversion and a drop out of creation order; distinct = hash(config, executed call sequence)",
         _ => "",
